@@ -65,6 +65,8 @@ def make (spec0):
             nodes [1] = nodes [1] + np.array ([0, 0, scale])
     seg_min = min (np.linalg.norm (nodes [a] - nodes [b]) / n for a, b, n in wires)
     tol  = 1e-3 * seg_min
+    # wire radius below and above the matching tolerance (1e-3 of the shortest segment)
+    rfac = float (np.random.default_rng ([spec0 ['seed'], 122, spec0 ['i']]).choice ([1e-4, 1e-4, 3e-3, 1e-2]))
     geo  = []
     ends = []   # (wire, end, node, klass) klass: 'join' | 'miss'
     missed = set ()
@@ -89,7 +91,21 @@ def make (spec0):
                     u [2] = abs (u [2])      # never below ground beyond tolerance
             pts.append (nodes [nd] + d * u)
             ends.append (dict (w = wi, e = e, node = nd, cls = cls, gnd = isg and cls == 'join', d = d / tol))
-        geo.append (gen.wire (n, pts [0], pts [1], 1e-4 * seg_min))
+        geo.append (gen.wire (n, pts [0], pts [1], rfac * seg_min))
+    # chains of near ends: three or more ends of one node in a row, each within the tolerance of the next
+    # but the outer ones farther apart than the tolerance (in any order of definition)
+    rc = np.random.default_rng ([spec0 ['seed'], 121, spec0 ['i']])
+    for nd in range (K):
+        es = [e for e in ends if e ['node'] == nd and e ['cls'] == 'join' and not e ['gnd'] and not (gnd and nodes [nd][2] == 0)]
+        if len (es) >= 3 and rc.random () < 0.35:
+            u    = unit (rc)
+            step = float (rc.choice ([0.6, 0.8, 0.95]))
+            for k, j in enumerate (rc.permutation (len (es))):
+                e = es [j]
+                e ['cls'] = 'chain'
+                e ['d']   = k * step
+                g = geo [e ['w']]
+                g ['p1' if e ['e'] == 0 else 'p2'] = (nodes [nd] + k * step * tol * u).tolist ()
     # explicit / automatic tags
     if rng.random () < 0.5:
         tags = rng.permutation (np.arange (1, len (geo) + 1) * int (rng.integers (1, 4))).tolist ()
@@ -147,6 +163,7 @@ def expected (spec):
     n_int = len (pts)
     junc  = {}
     n_gnd = 0
+    gnodes = set (e ['node'] for e in ends if e ['gnd'])
     for e in ends:
         g = geo [e ['w']]
         p = np.asarray (g ['p1'] if e ['e'] == 0 else g ['p2'], float) + off
@@ -155,13 +172,32 @@ def expected (spec):
             q = p.copy ()
             q [2] = 0.0
             pts.append (q)
-        elif e ['cls'] == 'join':
+        elif e ['cls'] in ('join', 'chain') or e ['node'] not in gnodes:
+            # ends that miss their node are candidates as well: next to a chain they may be within reach of one of its ends
             junc.setdefault (e ['node'], []).append (p)
     sizes = []
+    tol   = spec ['tol']
+    rads  = spec.setdefault ('_rads', {})
+    rads.clear ()
+    spec ['_nlattice'] = 0
     for nd, pl in junc.items ():
-        sizes.append (len (pl))
-        for k in range (len (pl) - 1):
-            pts.append (pl [0])
+        # ends closer than the tolerance are joined; being joined is transitive
+        cl = list (range (len (pl)))
+        for i in range (len (pl)):
+            for j in range (i):
+                if np.linalg.norm (pl [i] - pl [j]) <= tol and cl [i] != cl [j]:
+                    a, b = cl [i], cl [j]
+                    cl = [b if x == a else x for x in cl]
+        for c in sorted (set (cl)):
+            mem = [pl [i] for i in range (len (pl)) if cl [i] == c]
+            sizes.append (len (mem))
+            ctr = np.mean (mem, axis = 0)
+            rad = max (np.linalg.norm (x - ctr) for x in mem) / tol
+            spec ['_nlattice'] = spec.get ('_nlattice', 0) + len (mem) - 1
+            for k in range (len (mem) - 1):
+                # the junction pulse sits on one of the joined end points
+                pts.append (ctr)
+                rads [len (pts) - 1] = rad + 0.05
     if spec.get ('gcurve'):
         c  = spec ['gcurve']
         nd = [p + coff for p in georef.nodes_of ({k: v for k, v in c.items () if k != 'ngnd'})]
@@ -193,9 +229,33 @@ def check (spec0):
     mon  = {}
     def bad (monitor, key, msg):
         viol.append (dict (monitor = monitor, key = key, msg = msg))
+    # what first-match joining in order of definition gives for the chains (each end is compared with the ends
+    # seen before and joins the junction of the first one within the tolerance; junctions are never merged)
+    greedy = None
+    if any (e ['cls'] == 'chain' for e in spec ['ends']):
+        wgeo  = [g for g in spec ['geo'] if g ['k'] == 'w']
+        order, tg = georef.object_tags (spec ['geo'])
+        rank  = {id (g): t for g, t in zip (order, tg)}
+        seq   = sorted (spec ['ends'], key = lambda e: (rank [id (wgeo [e ['w']])], e ['e']))
+        keys  = {}
+        njp   = 0
+        gnodes = set (e ['node'] for e in spec ['ends'] if e ['gnd'])
+        for e in seq:
+            if e ['gnd'] or (e ['cls'] == 'miss' and e ['node'] in gnodes):
+                continue
+            g = wgeo [e ['w']]
+            P = np.asarray (g ['p1'] if e ['e'] == 0 else g ['p2'], float)
+            ks = keys.setdefault (e ['node'], [])
+            if any (np.linalg.norm (P - q) <= tol for q in ks):
+                njp += 1
+            ks.append (P)
+        greedy = len (pts) - spec ['_nlattice'] + njp
     # count
     mon ['count'] = 1
-    if len (m.pulses) != len (pts):
+    if len (m.pulses) != len (pts) and greedy is not None and len (m.pulses) == greedy:
+        bad ('count', 'near-end-chain-first-match', '%d pulses, ends closer than the tolerance joined transitively give %d: an end within the tolerance of two '
+             'junctions that were opened before it joins only the first (junction sizes expected %s)' % (len (m.pulses), len (pts), sorted (sizes)))
+    elif len (m.pulses) != len (pts):
         bad ('count', 'pulse-count', '%d pulses, topology gives %d (interior %d, grounded %d, junction sizes %s)'
              % (len (m.pulses), len (pts), n_int, n_gnd, sorted (sizes)))
     # positions as multiset
@@ -203,18 +263,22 @@ def check (spec0):
     have = [np.asarray (p.point, float) for p in m.pulses]
     rest = list (range (len (have)))
     unmatched = 0
-    for q in pts:
+    rads = spec.get ('_rads') or {}
+    for qi, q in enumerate (pts):
         best = None
         if rest:
             # nearest remaining pulse (two expected positions can lie within the tolerance of each other)
             j = min (rest, key = lambda j: np.linalg.norm (have [j] - q))
-            if np.linalg.norm (have [j] - q) <= 0.6 * tol + 1e-9 * np.linalg.norm (q):
+            if np.linalg.norm (have [j] - q) <= max (0.6, rads.get (qi, 0.0)) * tol + 1e-9 * np.linalg.norm (q):
                 best = j
         if best is None:
             unmatched += 1
         else:
             rest.remove (best)
-    if unmatched or (rest and len (m.pulses) == len (pts)):
+    chain_known = any (v ['key'] == 'near-end-chain-first-match' for v in viol)
+    if chain_known and unmatched == len (pts) - len (m.pulses) and not rest:
+        pass        # the junction pulses that first-match joining does not create; every pulse there is sits where expected
+    elif unmatched or (rest and len (m.pulses) == len (pts)):
         bad ('positions', 'pulse-position', '%d expected pulse positions have no pulse, %d pulses at unexpected positions'
              % (unmatched, len (rest)))
     # numbering
@@ -234,12 +298,13 @@ def check (spec0):
         bad ('numbering', 'report-structure', 'unparsed geometry lines: %r' % rep ['leftovers'][:2])
     # pulse sits on a joint shared by its two segments; END columns name their objects
     mon ['joint'] = len (m.pulses)
+    spread = max ([e ['d'] for e in spec ['ends'] if e ['cls'] == 'chain'] or [0.0])
     rows = {int (r ['no']): r for b in rep ['geometry'] for r in b ['rows']}
     for p in m.pulses:
         P = np.asarray (p.point, float)
         for s in p.segs:
             d = min (np.linalg.norm (P - np.asarray (s.p1, float)), np.linalg.norm (P - np.asarray (s.p2, float)))
-            if d > 1.05 * tol:
+            if d > (1.05 + spread) * tol:
                 bad ('joint', 'pulse-not-on-joint', 'pulse %d at %s is %.3g tolerances from the nearest end of a segment it holds'
                      % (p.idx + 1, P, d / tol))
         r = rows.get (p.idx + 1)
